@@ -68,6 +68,8 @@ GROUPS = {
     ("src/arch/all/twoway.rs", r"impl FinderRev \{", "FinderRev", ["new"])],
   "PackedPairNew": [
     ("src/arch/generic/packedpair.rs", r"impl<V: Vector> Finder<V> \{", "PPFinder", ["new"])],
+  "SearcherRev": [
+    ("src/memmem/searcher.rs", r"impl SearcherRev \{", "SearcherRev", ["new", "rfind"])],
   "IterNext": [
     ("src/memmem/mod.rs", r"impl<'h, 'n> Iterator for FindIter<'h, 'n> \{", "FindIter", ["next"]),
     ("src/memmem/mod.rs", r"impl<'h, 'n> Iterator for FindRevIter<'h, 'n> \{", "FindRevIter", ["next"])],
@@ -94,8 +96,12 @@ STRUCT_ALIAS = {"PackedPairNew": {"Finder": "PPFinder"}}
 # generated definition; the tie lemma quantifies over every oracle that agrees with the model's search.
 # (container, fn) -> {rendered receiver + "." + method: (parameter name, [indices of the arguments passed on], result type)}
 ORACLES = {
-    ("FindIter", "next"): {"self.finder.searcher.find": ("o_find", [1], "Option<usize>")},
-    ("FindRevIter", "next"): {"self.finder.rfind": ("o_rfind", [0], "Option<usize>")},
+    ("FindIter", "next"): {"self.finder.searcher.find": ("o_find", [1], "Option<usize>", "list N -> option N")},
+    ("FindRevIter", "next"): {"self.finder.rfind": ("o_rfind", [0], "Option<usize>", "list N -> option N")},
+    ("SearcherRev", "rfind"): {
+        "crate::memrchr": ("o_memrchr", [0, 1], "Option<usize>", "N -> list N -> option N"),
+        "self.rabinkarp.rfind": ("o_rk_rfind", [0], "Option<usize>", "list N -> option N"),
+        "finder.rfind": ("o_tw_rfind", [0], "Option<usize>", "list N -> option N")},
 }
 
 # structs whose definitions are read from the source: name -> file
@@ -109,6 +115,7 @@ STRUCTS = {
     "Searcher": {},
     "IterHint": {},
     "IterNext": {},
+    "SearcherRev": {"SearcherRev": "src/memmem/searcher.rs"},
     "PackedPairNew": {},
     "Shift": {},
     "Suffix": {"Suffix": "src/arch/all/twoway.rs"},
@@ -116,11 +123,25 @@ STRUCTS = {
 }
 # a group may call the functions and use the types of other groups (their Code<G>.v is imported, not repeated)
 GROUP_IMPORTS = {"TwoWayNew": ["ByteSet", "Suffix", "Shift"], "PackedPairNew": ["Pair"]}
+# Types and functions of OTHER modules used with their module path (two modules define a `FinderRev`): the generated
+# file `Require`s the other group's file without importing it and uses qualified names.
+# group -> (required groups, {rust type path: Coq type}, {rust call path: (Coq function, takes fuel, param types, result type)})
+QUALIFIED = {
+    "SearcherRev": (["TwoWayNew", "RabinKarp"],
+                    {"twoway::FinderRev": "CodeTwoWayNew.FinderRev", "rabinkarp::FinderRev": "CodeRabinKarp.FinderRev"},
+                    {"twoway::FinderRev::new": ("CodeTwoWayNew.rs_FinderRev_new", True, ["&[u8]"], "twoway::FinderRev"),
+                     "rabinkarp::FinderRev::new": ("CodeRabinKarp.rs_FinderRev_new", False, ["&[u8]"], "rabinkarp::FinderRev"),
+                     "rabinkarp::is_fast": ("CodeRabinKarp.rs_rabinkarp_is_fast", False, ["&[u8]", "&[u8]"], "bool")}),
+}
+QUAL_TYPES = {}
+for _g, (_r, _t, _c) in QUALIFIED.items():
+    QUAL_TYPES.update(_t)
 # the vector type parameter V of the generic packed-pair finder: V::BYTES is a parameter of the generated
 # definition, V::splat(b) is represented by the byte b (a vector whose lanes all hold b)
 VECTOR_PARAM = "V"
 # enums read from the source: group -> {name: file}
 ENUMS = {"Shift": {"Shift": "src/arch/all/twoway.rs"},
+         "SearcherRev": {"SearcherRevKind": "src/memmem/searcher.rs"},
          "Suffix": {"SuffixKind": "src/arch/all/twoway.rs", "SuffixOrdering": "src/arch/all/twoway.rs"}}
 VIEW_GROUPS = {"IterHint": ["FindIter", "Iter"], "IterNext": ["FindIter", "FindRevIter"], "PackedPairNew": ["PPFinder"]}
 # type hints for locals whose type Rust infers backwards
@@ -132,6 +153,7 @@ LOCAL_HINTS = {("ApproximateByteSet", "new", "bits"): "u64",
 # ---------------------------------------------------------------- lexer
 TOK = re.compile(r"""
     (?P<ws>\s+)
+  | (?P<str>"(?:[^"\\]|\\.)*")
   | (?P<num>0x[0-9a-fA-F_]+(?:u8|u16|u32|u64|usize)?|[0-9][0-9_]*(?:u8|u16|u32|u64|usize)?)
   | (?P<id>[A-Za-z_][A-Za-z0-9_]*)
   | (?P<op><<=|>>=|::|->|=>|==|!=|<=|>=|&&|\|\||<<|>>|\+=|-=|\*=|\|=|&=|\^=|[-+*/%&|^!<>=.,;:(){}\[\]#?'])
@@ -333,6 +355,14 @@ class P:
             e = None if self.peek() == ";" else self.expr()
             self.eat(";")
             return ("return", e)
+        if self.kind() == "id" and self.peek(1) == "!" and v in ("trace", "debug", "info", "warn", "log"):
+            self.eat(); self.eat("!"); self.eat("(")
+            depth = 1
+            while depth:
+                t_ = self.eat()
+                depth += (t_ == "(") - (t_ == ")")
+            self.accept(";")
+            return ("use",)
         if v == "use":
             while self.peek() != ";":
                 self.eat()
@@ -569,6 +599,16 @@ class P:
             path = [name]
             while self.accept("::"):
                 path.append(self.eat())
+            if self.peek() == "{":
+                self.eat("{")
+                names = []
+                while self.peek() != "}":
+                    self.accept("ref"); self.accept("mut")
+                    names.append(self.eat())
+                    if not self.accept(","):
+                        break
+                self.eat("}")
+                return ("pstruct", path, names)
             return ("ppath", path)
         if self.peek() == "(":
             self.eat("(")
@@ -612,6 +652,7 @@ class Tr:
         self.oracles_used = {}
         self.type_consts_used = {}
         self.struct_alias = {}
+        self.qual_calls = {}
         self.nloops = 0
         self.uses_fuel = False
         self.aux = []
@@ -806,6 +847,14 @@ class Tr:
                 return self.bind(r, f)
             if s[0] == "tail" and i + 1 == len(stmts):
                 return self.expr(s[1], env, want)
+            if s[0] == "use" and i + 1 < len(stmts):
+                return go(i + 1)
+            if s[0] == "assert" and i + 1 < len(stmts):
+                rc_ = self.expr(s[2], env, "bool")
+                def fa(pc):
+                    rest = go(i + 1)
+                    return R(f"(if {pc.text} then {rest.mon()} else Panic (AssertFail 0))", False, rest.ty)
+                return self.bind(rc_, fa)
             raise TieBroken(f"{self.what}: unsupported statement {s[0]} in a value block")
         if not stmts:
             return R("tt", True, "()")
@@ -897,9 +946,9 @@ class Tr:
                 f"(if (N.leb {pv.text} (tmax {bits_of(to, w)})) then Ok {pv.text} else Panic UnwrapNone)", False, to))
         orc = ORACLES.get((self.prefix, self.fn["name"]), {}).get(self.render(recv) + "." + name)
         if orc:
-            oname, idxs, oty = orc
+            oname, idxs, oty, octy = orc
             ras = [self.expr(args[i_], env) for i_ in idxs]
-            self.oracles_used[oname] = (len(idxs), oty)
+            self.oracles_used[oname] = octy
             return self.bind_all(ras, lambda pas: R(f"({oname}" + "".join(" " + a.text for a in pas) + ")", True, oty))
         al = self.aliases.get(self.render(e))
         if al:
@@ -912,6 +961,8 @@ class Tr:
                 return self.bind(ra, lambda pa: R(f"({p.text} {pa.text})", True, "u8"))
             if p.ty == "&[u8]" and name == "len" and not args:
                 return R(f"(N.of_nat (length {p.text}))", True, "usize")
+            if p.ty == "&[u8]" and name == "is_empty" and not args:
+                return R(f"(N.eqb (N.of_nat (length {p.text})) 0%N)", True, "bool")
             if p.ty == "&[u8]" and name == "get" and len(args) == 1 and args[0][0] == "rangefrom":
                 ra = self.expr(args[0][1], env, "usize")
                 return self.bind(ra, lambda pa: R(f"(slice_from_opt {p.text} {pa.text})", True, "Option<&[u8]>"))
@@ -971,6 +1022,23 @@ class Tr:
         if len(path) == 2 and path[0] in INT_BITS and path[1] == "from" and len(args) == 1:
             r = self.expr(args[0], env)
             return self.bind(r, lambda p: R(p.text, True, path[0]))
+        orc = ORACLES.get((self.prefix, self.fn["name"]), {}).get("::".join(path))
+        if orc:
+            oname, idxs, oty, octy = orc
+            ras = [self.expr(args[i_], env) for i_ in idxs]
+            self.oracles_used[oname] = octy
+            return self.bind_all(ras, lambda pas: R(f"({oname}" + "".join(" " + a.text for a in pas) + ")", True, oty))
+        q = self.qual_calls.get("::".join(path))
+        if q:
+            cname, takes_fuel, ptys, rty = q
+            if len(args) != len(ptys):
+                raise TieBroken(f"{w}: arity of {'::'.join(path)}")
+            ras = [self.expr(a, env, pt) for a, pt in zip(args, ptys)]
+            fuel = ""
+            if takes_fuel:
+                fuel = " fuel'" if self.in_loop else " fuel"
+                self.uses_fuel = True
+            return self.bind_all(ras, lambda pas: R(f"({cname}{fuel}" + "".join(" " + a.text for a in pas) + ")", False, rty))
         if path[-2:] in (["cmp", "max"], ["cmp", "min"]) and len(args) == 2:
             ra = self.expr(args[0], env, want)
             rb = self.expr(args[1], env, ra.ty if ra.ty != "?" else want)
@@ -1087,14 +1155,20 @@ class Tr:
             guard = None
             if pat[0] == "pguard":
                 guard, pat = pat[2], pat[1]
-            if pat[0] == "ppath" and len(pat[1]) == 2 and pat[1][0] == en:
+            binds = []
+            if pat[0] in ("ppath", "pstruct") and len(pat[1]) == 2 and pat[1][0] == en:
                 var = pat[1][1]
+                if pat[0] == "pstruct":
+                    binds = pat[2]
             elif pat[0] == "pvar" and pat[1] in chains:
                 var = pat[1]
             else:
                 raise TieBroken(f"{w}: unsupported pattern in a match on {en}")
             if var not in chains:
                 raise TieBroken(f"{w}: enum {en} has no variant {var}")
+            vflds = dict(self.enums[en])[var]
+            if [f_ for f_, _ in vflds] != binds:
+                raise TieBroken(f"{w}: pattern {en}::{var} must bind exactly the variant's fields in order")
             if var in closed:
                 continue       # unreachable arm
             chains[var].append((guard, body))
@@ -1103,18 +1177,24 @@ class Tr:
         if closed != set(chains):
             raise TieBroken(f"{w}: match on {en} is not exhaustive in the translated subset")
         branches, ty = [], "?"
-        for var, _ in self.enums[en]:
+        for var, vflds in self.enums[en]:
             t = None
+            envv = {k_: list(x) for k_, x in env.items()}
+            bnames = []
+            for f_, fty in vflds:
+                bn = self.fresh(f_)
+                envv.setdefault(f_, []).append((bn, fty))
+                bnames.append(bn)
             for guard, body in reversed(chains[var]):
-                rb = tr_body(body, env)
+                rb = tr_body(body, envv)
                 if "?" in ty:
                     ty = rb.ty
                 if guard is None:
                     t = rb.mon()
                 else:
-                    rg = self.expr(guard, env, "bool")
+                    rg = self.expr(guard, envv, "bool")
                     t = self.bind(rg, lambda pg, rb=rb, t=t: R(f"(if {pg.text} then {rb.mon()} else {t})", False, rb.ty)).mon()
-            branches.append(f"| {en}_{var} => {t}")
+            branches.append(f"| {en}_{var}" + "".join(" " + b_ for b_ in bnames) + f" => {t}")
         return R(f"(match {p.text} with {' '.join(branches)} end)", False, ty)
 
     # ---- statements with continuation; returns monadic R computing the function result
@@ -1306,7 +1386,10 @@ class Tr:
         raise TieBroken(f"{w}: unsupported statement {s[0]}")
 
     def match_has_effects(self, e):
-        return any(a[1][0] == "block" for a in e[2])
+        def eff(b):
+            return any(st[0] not in ("let", "tail", "use", "assert", "lettuple") or
+                       (st[0] == "tail" and st[1][0] == "if" and self.has_effects(st[1])) for st in b)
+        return any(a[1][0] == "block" and eff(a[1][1]) for a in e[2])
 
     def scope_exit(self, env, env_after):
         """bindings after a nested block: `let`s of the block are dropped, assignments are kept"""
@@ -1661,6 +1744,8 @@ def split_tuple(ty):
     return parts
 
 def coq_type(ty, structs, what):
+    if ty in QUAL_TYPES:
+        return QUAL_TYPES[ty]
     if ty == "fn(u8)->u8":
         return "(N -> N)"
     if ty in INT_BITS:
@@ -1775,6 +1860,8 @@ def translate(repo, group, _emit=True):
     out = []
     out.append(f"(* GENERATED by tools/rs2coq.py (group {group}) from /repo's current source. Do not edit. *)")
     out.append("From Memchr Require Import Base.Res Base.Bits Gen.Ops" + "".join(f" Gen.Code{g}" for g in imports) + ".")
+    if group in QUALIFIED:
+        out.append("From Memchr Require " + " ".join(f"Gen.Code{g}" for g in QUALIFIED[group][0]) + ".")
     out.append("Local Open Scope N_scope.")
     out.append("")
     for ename in enums:
@@ -1791,6 +1878,7 @@ def translate(repo, group, _emit=True):
         tr = Tr(structs, fnsigs, prefix, fn, what)
         tr.enums = enums
         tr.struct_alias = STRUCT_ALIAS.get(group, {})
+        tr.qual_calls = QUALIFIED.get(group, ([], {}, {}))[2]
         fn["ret"] = re.sub(r"<[A-Z]>$", "", fn["ret"])
         fn["ret"] = tr.struct_alias.get(fn["ret"], fn["ret"])
         env = {}
@@ -1827,8 +1915,8 @@ def translate(repo, group, _emit=True):
         name = f"rs_{prefix}_{fn['name']}"
         btxt = body.mon()
         fn["uses_fuel"] = tr.uses_fuel
-        for oname, (nargs, oty) in sorted(tr.oracles_used.items(), reverse=True):
-            binders.insert(0, f"({oname} : " + " -> ".join(["list N"] * nargs) + f" -> {coq_type(oty, structs, what)})")
+        for oname, octy in sorted(tr.oracles_used.items(), reverse=True):
+            binders.insert(0, f"({oname} : {octy})")
         for cname in sorted(tr.type_consts_used, reverse=True):
             binders.insert(0, f"({cname} : N)")
         if tr.uses_fuel:
